@@ -286,7 +286,7 @@ Record fstatic (d : fdyn) : Prop := mkFstatic {
   fs_lower : lower_fbody (statement (fd_g d)) (expression (fd_g d)) (fd_body d) (fd_ctx d) (fd_c d) = Ok (fd_code d, fd_c' d);
   fs_frag : fbody_check (frag_stmts pv sv bound (snd (bind_scope (fd_params d) (fd_pk d) (fd_sc d) (fd_fl d))) (fd_k d)
                                     (fst (bind_scope (fd_params d) (fd_pk d) (fd_sc d) (fd_fl d))))
-                        (fun fl1 sc1 e => frag_fexpr pv sv bound fl1 (fd_k d) sc1 e) (fd_k d) (fd_body d) (fd_rk d) = true;
+                        (fun fl1 sc1 e => frag_fexpr pv sv bound fl1 (fd_k d) sc1 e) (fun fl1 sc1 e => frag_expr pv sv bound fl1 (fd_k d) sc1 e) (fd_k d) (fd_body d) (fd_rk d) = true;
   fs_pk : length (fd_pk d) = length (fd_params d);
   fs_params : params_ok pv sv bound (fd_fl d) (fd_sc d) (fd_params d) = true;
   fs_scb : forall g, In g (fd_sc d) -> g < bound /\ g <> pv;
